@@ -98,6 +98,8 @@ def _dispose_fields(fm, visited_s):
             fm.size.dispose()
             fm.sum_expr_btor = None
             fm.product_expr_btor = None
+            fm.sum_expr_solver = None
+            fm.product_expr_solver = None
             if fm.is_rand_sz and fm.is_scalar:
                 # Keep the storage of a random-size list in step with the size 
                 # the user sees, also when the call failed part-way
